@@ -1,0 +1,144 @@
+// Copyright 2020 Denis Bernard <db047h@gmail.com>. All rights reserved.
+// Use of this source code is governed by a BSD-style
+// license that can be found in the LICENSE file.
+
+//go:build verif
+// +build verif
+
+// Verification hooks: exported access to unexported kernels, dec operations and tuning
+// thresholds. Only compiled with -tags verif.
+
+package decimal
+
+import "fmt"
+
+// VerifWW runs a word kernel. pure selects the portable _g implementation.
+func VerifWW(name string, pure bool, a, b, c Word) (Word, Word) {
+	switch name {
+	case "mul10WW":
+		if pure {
+			return mul10WW_g(a, b)
+		}
+		return mul10WW(a, b)
+	case "div10WW":
+		if pure {
+			return div10WW_g(a, b, c)
+		}
+		return div10WW(a, b, c)
+	case "div10W":
+		if pure {
+			return div10W_g(a, b)
+		}
+		return div10W(a, b)
+	case "add10WWW":
+		return add10WWW_g(a, b, c)
+	case "sub10WWW":
+		return sub10WWW_g(a, b, c)
+	case "mulAddWWW":
+		return mulAddWWW_g(a, b, c)
+	case "decDigits":
+		return Word(decDigits(uint(a))), 0
+	case "nlz10":
+		return Word(nlz10(a)), 0
+	case "trailingZeroDigits":
+		return Word(trailingZeroDigits(uint(a))), 0
+	}
+	panic("VerifWW: unknown kernel " + name)
+}
+
+// VerifVec runs a vector kernel on the given slices (which may overlap as the caller arranges).
+func VerifVec(name string, pure bool, z, x, y []Word, s, r Word) Word {
+	switch name {
+	case "add10VV":
+		if pure {
+			return add10VV_g(z, x, y)
+		}
+		return add10VV(z, x, y)
+	case "sub10VV":
+		if pure {
+			return sub10VV_g(z, x, y)
+		}
+		return sub10VV(z, x, y)
+	case "add10VW":
+		if pure {
+			return add10VW_g(z, x, s)
+		}
+		return add10VW(z, x, s)
+	case "sub10VW":
+		if pure {
+			return sub10VW_g(z, x, s)
+		}
+		return sub10VW(z, x, s)
+	case "shl10VU":
+		if pure {
+			return shl10VU_g(z, x, uint(s))
+		}
+		return shl10VU(z, x, uint(s))
+	case "shr10VU":
+		if pure {
+			return shr10VU_g(z, x, uint(s))
+		}
+		return shr10VU(z, x, uint(s))
+	case "mulAdd10VWW":
+		if pure {
+			return mulAdd10VWW_g(z, x, s, r)
+		}
+		return mulAdd10VWW(z, x, s, r)
+	case "addMul10VVW":
+		if pure {
+			return addMul10VVW_g(z, x, s)
+		}
+		return addMul10VVW(z, x, s)
+	case "div10VWW":
+		if pure {
+			return div10VWW_g(z, x, s, r)
+		}
+		return div10VWW(z, x, s, r)
+	}
+	panic("VerifVec: unknown kernel " + name)
+}
+
+// VerifDec runs a dec operation with receiver buffer z and returns the results; a panic of
+// the operation is returned as msg.
+func VerifDec(op string, z, x, y []Word, s uint) (q, r []Word, msg string) {
+	defer func() {
+		if e := recover(); e != nil {
+			msg = fmt.Sprint(e)
+		}
+	}()
+	switch op {
+	case "mul":
+		q = dec(z).mul(dec(x), dec(y))
+	case "sqr":
+		q = dec(z).sqr(dec(x))
+	case "div":
+		var qq, rr dec
+		qq, rr = dec(z).div(nil, dec(x), dec(y))
+		q, r = qq, rr
+	case "divW":
+		var rw Word
+		var qq dec
+		qq, rw = dec(z).divW(dec(x), Word(s))
+		q, r = qq, []Word{rw}
+	case "shl":
+		q = dec(z).shl(dec(x), s)
+	case "shr":
+		q = dec(z).shr(dec(x), s)
+	case "add":
+		q = dec(z).add(dec(x), dec(y))
+	case "sub":
+		q = dec(z).sub(dec(x), dec(y))
+	case "mulAddWW":
+		q = dec(z).mulAddWW(dec(x), Word(s), 0)
+	default:
+		panic("VerifDec: unknown operation " + op)
+	}
+	return
+}
+
+// VerifSetThresholds sets the three tuning thresholds and returns the previous values.
+func VerifSetThresholds(karatsuba, basicSqr, karatsubaSqr int) (int, int, int) {
+	a, b, c := decKaratsubaThreshold, decBasicSqrThreshold, decKaratsubaSqrThreshold
+	decKaratsubaThreshold, decBasicSqrThreshold, decKaratsubaSqrThreshold = karatsuba, basicSqr, karatsubaSqr
+	return a, b, c
+}
